@@ -175,11 +175,14 @@ def outside_case(M, cat, error):
     from dreye.api.convex import range_of_solutions
     A = _A(M, cat)
     m, n = np.asarray(A).shape
-    lb = M.real("lb", (n,), sample=lambda r, s: r.choice([0.0, 0.1], size=s)); ub = M.real("ub", (n,), sample=lambda r, s: r.uniform(1.0, 2.0, size=s))
+    lb = M.real("lb", (n,), sample=lambda r, s: r.choice([0.0, 0.2, 0.3], size=s)); ub = M.real("ub", (n,), sample=lambda r, s: r.uniform(1.0, 2.0, size=s))
     for j in range(n):
         M.assume(lb[j] >= 0); M.assume(ub[j] > lb[j])
-    b = M.real("b", (m,), sample=lambda r, s: r.uniform(30.0, 40.0, size=s) * np.array([1.0] + [0.01] * (s[0] - 1)))
+    # concrete modes: targets far too bright (upper bounds active) or far too dim / unbalanced (lower bounds active)
     base = M.real("base", (m,), sample=lambda r, s: r.uniform(0.5, 2.0, size=s))
+    base_hint = np.asarray(base, dtype=float) if not M.symbolic else 0.0
+    b = M.real("b", (m,), sample=lambda r, s: (r.uniform(30.0, 40.0, size=s) * np.array([1.0] + [0.01] * (s[0] - 1))) if r.random() < 0.5
+               else r.uniform(0.001, 0.01, size=s) + base_hint)
     xc = M.real("xc", (n,), sample=lambda r, s: r.uniform(0.3, 0.9, size=s))
     _Gate.answer = False
     symcp.reset()
